@@ -10,17 +10,20 @@ What is proved (exact arithmetic, all inputs, any projection functions):
 * `posterior_inv`: every stored node posterior is `(0,0)` (never updated) or proper with shape in
   `[1/max_shape, max_shape]`, after every update / iteration, **unless the real code raises an AssertionError**
   (`iterateNOk`: the asserts of `_damp`, `_rescale`, `propagate_prior` as Boolean conditions of the run).
-* `likelihood_update_never_asserts`: with a valid-or-skip projection and a proper posterior, the asserts of one
-  edge update cannot fire (local statement; it is NOT lifted over whole runs, see below).
+* `likelihood_update_never_asserts` (one update) and `likelihood_sweeps_never_assert` / `C05_nodes_valid_or_skip` /
+  `C05_nodes_current_source` (whole un-regularised runs): with valid-or-skip projections — in particular with the
+  projection kernels regenerated from the current source — no assert of `_damp`/`_rescale` can fire.
 * outputs: mean/variance of a proper posterior are positive with `mean²/variance = shape ≤ max_shape`;
   `approximate_gamma_mom` output is proper; phase flip lands in `[1/2, 1]`; IQR reprojection is capped.
 
 What is NOT proved (kept as `C05_statement`): that every non-sample node *receives* a valid update — a node whose
-every update is skipped keeps `(0,0)`, which is improper (mean `1/0`); that `propagate_prior`'s assert on the cavity
-rate cannot fire; finiteness in floating point (overflow is not modelled).
+every update is skipped keeps `(0,0)`, which is improper (mean `1/0`); that `propagate_prior`'s asserts (penalty > 0,
+proper regularised posterior: its cavity is not damped) cannot fire — so with `regularise_roots=True` the invariant
+stays conditional on "no AssertionError"; finiteness in floating point (overflow is not modelled).
 -/
 import TsdateVerif.Proofs.EPProper
 import TsdateVerif.Proofs.EPGen
+import TsdateVerif.Proofs.EPGenVOS
 
 namespace Tsdate.C05
 open Tsdate Tsdate.EP
@@ -125,6 +128,40 @@ theorem likelihood_update_never_asserts (x y r : α × α) (minStep : α) (hs0 :
     dampOk x y minStep = true ∧ rescaleOk r = true ∧ (Proper x → Proper (cavity x y (damp x y minStep))) :=
   ⟨dampOk_of_proper x y minStep hs0 hs1 h, valid_or_skip_passes x y r minStep hs0 hs1 h hr,
    cavity_proper x y minStep hs0 hs1⟩
+
+/-- **`propagate_likelihood` never trips an assert** when the projections are valid-or-skip (`VOS`: every updated
+end gets back its cavity or a proper gamma), from any state satisfying the invariant `Good` (stored posteriors
+zero-or-proper-and-capped, and a still-zero node has only zero messages addressed to it) — and keeps `Good`. -/
+theorem likelihood_sweeps_never_assert (proj : Req α → Res α) (hvos : VOS proj) (cfg : Cfg α) (net : Net α)
+    (N : Nat) (unphased : Bool) (order : List Nat) (s : State α) (hg : Good cfg net s N) (hnet : NetOK net N)
+    (hord : ∀ i ∈ order, i < (parOf unphased net).size) (hs0 : 0 < cfg.minStep) (hs1 : cfg.minStep < 1)
+    (hms : 1 < cfg.maxShape) :
+    sweepOk proj cfg net unphased order s = true ∧ Good cfg net (sweep proj cfg net unphased order s) N :=
+  sweep_good proj hvos cfg net N unphased order s hg hnet hord hs0 hs1 hms
+
+/-- **C05 node clause without the escape clause, for un-regularised runs**: with valid-or-skip projections, any
+input, any orders, any number of iterations, `regularise = false`: the real code's asserts never fire and every
+stored posterior is `(0,0)` or proper with shape in `[1/max_shape, max_shape]`. -/
+theorem C05_nodes_valid_or_skip (proj : Req α → Res α) (hvos : VOS proj) (cfg : Cfg α) (net : Net α)
+    (sch : Sched α) (N : Nat) (hok : SchedOK net sch N) (hreg : sch.regularise = false)
+    (hs0 : 0 < cfg.minStep) (hs1 : cfg.minStep < 1) (hms : 1 < cfg.maxShape) (k : Nat) :
+    iterateNOk proj cfg net sch k (initState N net.ep.size net.bj.size) = true ∧
+      ∀ n, n < N →
+        PostOK cfg.maxShape (aget (iterateN proj cfg net sch k (initState N net.ep.size net.bj.size)).post n) := by
+  obtain ⟨h1, h2⟩ := iterateN_good proj hvos cfg net sch N k _ (init_good cfg net N) hok hreg hs0 hs1 hms
+  exact ⟨h1, h2.ok⟩
+
+/-- The same **for the projection kernels of the current source**: `genProj F` dispatches to the wrappers
+regenerated from `tsdate/approx.py` (`Gen/Kernels.lean`), which are valid-or-skip for every interpretation `F` of
+the special functions (kernels cluster, `Props/C18`). -/
+theorem C05_nodes_current_source (F : Tsdate.Kernels.SpecFns α) (cfg : Cfg α) (net : Net α) (sch : Sched α)
+    (N : Nat) (hok : SchedOK net sch N) (hreg : sch.regularise = false)
+    (hs0 : 0 < cfg.minStep) (hs1 : cfg.minStep < 1) (hms : 1 < cfg.maxShape) (k : Nat) :
+    iterateNOk (genProj F) cfg net sch k (initState N net.ep.size net.bj.size) = true ∧
+      ∀ n, n < N →
+        PostOK cfg.maxShape
+          (aget (iterateN (genProj F) cfg net sch k (initState N net.ep.size net.bj.size)).post n) :=
+  C05_nodes_valid_or_skip (genProj F) (genProj_vos F) cfg net sch N hok hreg hs0 hs1 hms k
 
 /-- Mutation posteriors: the tail of every projection wrapper (`_valid_moments` then `approximate_gamma_mom`)
 returns either the skip or a proper gamma whose mean and variance are the (positive) moments it was given. -/
